@@ -74,16 +74,17 @@ def Op.reads : Op → Path → Bool
 
 def Op.touches (o : Op) (q : Path) : Bool := o.writes q || o.reads q
 
-/-- effect of one operation -/
-def step (o : Op) (fs : FS) : FS :=
-  match o with
-  | .mkdtemp p | .mkdir p => fs.set p (some .dir)
-  | .mkstemp p => fs.set p (some (.file 0))
-  | .write p tok => fs.set p (some (.file tok))
-  | .openRO _ | .listdir _ => fs
-  | .unlink p | .rmdir p => fs.set p none
-  | .rmtree p => fun q => if p.isPrefixOf q then none else fs q
-  | .move s d => fun q => if q = d then fs s else if q = s then none else fs q
+/-- the new entry an operation gives to a path it writes (it may depend on what the
+operation reads: a `move` carries the source entry over) -/
+def Op.val : Op → FS → Path → Option Kind
+  | .mkdtemp _, _, _ | .mkdir _, _, _ => some .dir
+  | .mkstemp _, _, _ => some (.file 0)
+  | .write _ tok, _, _ => some (.file tok)
+  | .move s d, fs, q => if q = d then fs s else none
+  | _, _, _ => none
+
+/-- effect of one operation: exactly the entries in `writes` are rewritten -/
+def step (o : Op) (fs : FS) : FS := fun q => if o.writes q then o.val fs q else fs q
 
 /-- what one operation sees of the file system -/
 def obs (o : Op) (fs : FS) : FS := fun q => if o.reads q then fs q else none
@@ -163,14 +164,16 @@ def overlay (stale fs : FS) : FS := fun q => match stale q with
   | some k => some k
   | none => fs q
 
-/-- an interleaving of two runs -/
-inductive IsMerge : List Op → List Op → List Op → Prop
-  | nil : IsMerge [] [] []
-  | left {l a b} (o : Op) : IsMerge l a b → IsMerge (o :: l) (o :: a) b
-  | right {l a b} (o : Op) : IsMerge l a b → IsMerge (o :: l) a (o :: b)
+/-- an interleaving of two runs is a list of tagged operations (`true` = the operation
+belongs to the first run); `proj` recovers each run -/
+def proj (who : Bool) (l : List (Bool × Op)) : List Op :=
+  (l.filter (fun x => x.1 == who)).map (·.2)
+
+/-- the interleaving as one run -/
+def untag (l : List (Bool × Op)) : List Op := l.map (·.2)
 
 /-- what the operations of one of the two runs see inside an interleaving
-(`tags`: `true` = the operation belongs to the first run) -/
+-/
 def readsOf (who : Bool) : FS → List (Bool × Op) → List FS
   | _, [] => []
   | fs, (t, o) :: rest =>
